@@ -550,6 +550,87 @@ def normalised_view(prog):
     return replaced_view(prog, repl)
 
 
+def decision_table_view(ctx):
+    """View of the program in which a pure `fn([u8; N]) -> usize` of Base64Decoder (N <= 4, e.g. the size-from-padding function) is replaced
+    by its decision table over the classes {pad, not pad} of the input bytes: a tree of `chunk[k] == '='` tests with constant leaves.  The table
+    is computed by the symbolic evaluator (SymInterp over the syn tree, every byte either the pad value or an opaque non-pad cell that only
+    admits ==/!= against the pad value), exhaustively over the 2^N class vectors - these cover every concrete input, and an evaluation that
+    would panic, overflow or inspect a byte in any other way is Unsupported (then nothing is replaced).  The interval engine then sees the exact
+    result set whatever idiom (if chain, match, position().map_or(..), filter().count() ..) the function is written in.  Obligations inside
+    the replaced function are those of the exhaustive evaluation (all intermediate values concrete and <= N + 1)."""
+    from ..mir import Body
+    prog, src = ctx.prog, ctx.src
+    try:
+        padv = ord(json.load(open(REF))["alphabet"]["pad"])
+    except Exception:
+        return prog, []
+
+    def compare(op, a, b):
+        if isinstance(b, NonPad):
+            a, b = b, a
+        if isinstance(a, NonPad) and _is_int(b) and b == padv and op in ("==", "!="):
+            return op == "!="
+        raise ce.Unsupported("comparison of a chunk byte with something else than the pad value")
+    repl, names = {}, []
+    for b in prog.bodies:
+        if b.kind != "AssocFn" or b.impl_trait or not (b.impl_self and re.search(r"(^|::)Base64Decoder\b", b.impl_self)) or b.arg_count != 1:
+            continue
+        m = re.fullmatch(r"\[u8; (\d+)\]", str(b.local_ty(1)))
+        if not m or not 1 <= int(m.group(1)) <= 4 or b.local_ty(0) != "usize" or (b.j.get("vis") or "") == "Public":
+            continue
+        if not any(blk["term"]["k"] == "call" for blk in b.blocks):
+            continue                            # already plain tests and constants
+        n = int(m.group(1))
+        f = src.fn(b.name, impl_self=r"Base64Decoder.*")
+        if f is None or param_name(f[1]) is None:
+            continue
+        table = {}
+        try:
+            for bits in range(1 << n):
+                it = SymInterp(src)
+                it.compare_hook = compare
+                cls = tuple(bool(bits >> k & 1) for k in range(n))
+                got = it.run_item(f[1], "Base64Decoder", [[padv if cls[k] else NonPad(k) for k in range(n)]], f[0])
+                if not _is_int(got) or isinstance(got, bool) or not 0 <= got <= n + 1:
+                    raise ce.Unsupported("result %r" % (got,))
+                table[cls] = got
+        except (ce.Unsupported, KeyError, IndexError, TypeError, ValueError, AttributeError, RecursionError):
+            continue
+        locals_ = [{"ty": "usize", "mut": True}, {"ty": "[u8; %d]" % n, "mut": False}]
+        blocks = [{"cleanup": False, "stmts": [], "term": {"k": "goto", "t": 2}}, {"cleanup": False, "stmts": [], "term": {"k": "return"}}]
+        line = f[1].get("line", 0)
+
+        def build(prefix):
+            vals = {v for c, v in table.items() if c[:len(prefix)] == prefix}
+            bb = len(blocks)
+            if len(vals) == 1:
+                v = vals.pop()
+                blocks.append({"cleanup": False, "term": {"k": "goto", "t": 1}, "stmts": [
+                    {"k": "assign", "place": {"l": 0, "p": []}, "rv": {"k": "use", "a": {"k": "const", "c": {"ty": "usize", "int": str(v), "text": "%d_usize" % v}}},
+                     "line": line, "exp": False, "expk": "", "norm": "decision-table"}]})
+                return bb
+            k = len(prefix)
+            lt, lc = len(locals_), len(locals_) + 1
+            locals_.extend([{"ty": "u8", "mut": True}, {"ty": "bool", "mut": True}])
+            blk = {"cleanup": False, "stmts": [
+                {"k": "assign", "place": {"l": lt, "p": []}, "line": line, "exp": False, "expk": "", "norm": "decision-table",
+                 "rv": {"k": "use", "a": {"k": "copy", "place": {"l": 1, "p": [{"k": "cindex", "offset": k, "min_length": n, "from_end": False}]}}}},
+                {"k": "assign", "place": {"l": lc, "p": []}, "line": line, "exp": False, "expk": "", "norm": "decision-table",
+                 "rv": {"k": "bin", "op": "Eq", "a": {"k": "move", "place": {"l": lt, "p": []}}, "b": {"k": "const", "c": {"ty": "u8", "int": str(padv), "text": "%d_u8" % padv}}}}],
+                "term": None}
+            blocks.append(blk)
+            no = build(prefix + (False,))
+            yes = build(prefix + (True,))
+            blk["term"] = {"k": "switch", "d": {"k": "move", "place": {"l": lc, "p": []}}, "dty": "bool", "vals": ["0"], "targets": [no], "otherwise": yes, "line": line, "exp": False}
+            return bb
+        build(())
+        j = copy.deepcopy({k_: v_ for k_, v_ in b.j.items() if k_ not in ("blocks", "locals", "vars", "promoted")})
+        j.update({"locals": locals_, "blocks": blocks, "promoted": [], "vars": [v_ for v_ in copy.deepcopy(b.j.get("vars", [])) if v_.get("place", {}).get("l") == 1]})
+        repl[b.path] = Body(j, b.prog)
+        names.append("%s %s" % (b.path, sorted(set(table.values()))))
+    return replaced_view(prog, repl), names
+
+
 def obligations(ctx):
     """Numeric obligations of clauses (c)/(f): BOUNDS on `[u8;3]`/`[u8;64]`, RANGEIDX, overflow, copy_from_slice lengths — no panic in
     Reach(Base64Decoder::read, Base64Encoder::{write,finish}) — discharged by the abstract interpreter under two inductive struct
@@ -563,6 +644,14 @@ def obligations(ctx):
     if not first.failed:
         first.replay()
         return
+    tview, tnames = decision_table_view(ctx)
+    if tnames:
+        rec = Recorder(ctx, normalised_view(tview))
+        _obligations(rec)
+        if not rec.failed:
+            rec.replay()
+            ctx.note("numeric obligations established with %s replaced by the decision table over pad / non-pad input bytes (symbolic evaluation)" % tnames)
+            return
     helpers = sole_caller_helpers(ctx.prog)
     failing = set(first.failed)
     for b in ctx.prog.bodies:                       # a closure fails on behalf of the function it is written in
@@ -1411,6 +1500,34 @@ class SymInterp(ce.Interp):
                 return ce.some(recv[1]) if recv[0] == "Ok" else ce.NONE
             if m == "map" and n == 1 and isinstance(args[0], ce.ClosureV) and recv[0] in ("Some", "None"):
                 return ce.some(self.call_closure(args[0], [recv[1]])) if recv[0] == "Some" else ce.NONE
+            present = _is_opt(recv, "Some", "Ok") and len(recv) == 2
+            cl = [a for a in args if isinstance(a, ce.ClosureV)]
+            if m == "map_or" and n == 2 and isinstance(args[1], ce.ClosureV):
+                return self.call_closure(args[1], [recv[1]]) if present else args[0]
+            if m == "map_or_else" and n == 2 and len(cl) == 2:
+                if present:
+                    return self.call_closure(args[1], [recv[1]])
+                return self.call_closure(args[0], [recv[1]] if recv[0] == "Err" and len(recv) == 2 else [])
+            if m == "unwrap_or_else" and n == 1 and len(cl) == 1:
+                if present:
+                    return recv[1]
+                return self.call_closure(args[0], [recv[1]] if recv[0] == "Err" and len(recv) == 2 else [])
+            if m == "and_then" and n == 1 and len(cl) == 1:
+                return self.call_closure(args[0], [recv[1]]) if present else recv
+            if m in ("is_some_and", "is_ok_and") and n == 1 and len(cl) == 1:
+                r_ = self.call_closure(args[0], [recv[1]]) if present else False
+                if not isinstance(r_, bool):
+                    raise ce.Unsupported("predicate of `%s` is not a bool" % m)
+                return r_
+            if m == "filter" and n == 1 and len(cl) == 1 and recv[0] in ("Some", "None"):
+                if not present:
+                    return recv
+                r_ = self.call_closure(args[0], [recv[1]])
+                if not isinstance(r_, bool):
+                    raise ce.Unsupported("predicate of `filter` is not a bool")
+                return recv if r_ else ce.NONE
+            if m == "or" and n == 1 and recv[0] in ("Some", "None"):
+                return recv if present else args[0]
             if m == "map_err" and n == 1 and recv[0] in ("Ok", "Err"):
                 return recv if recv[0] == "Ok" else ("Err", Opaque("mapped error"))
         if m in ("clone", "to_owned") and n == 0:
